@@ -43,7 +43,7 @@ KEY_TXT_1ROW = "txt-single-row-gives-0d-scalars"
 KEY_TXT_1X1 = "txt-one-by-one-raises-typeerror"
 KEY_TXT_0ROW = "txt-zero-rows-loses-all-names"
 
-RULE = ("six case kinds. csv2d (33%): 0-8 (thorough 0-25) line fractures over a point pool with shared end points, tags, optional domain, tol in {1e-8,1e-4,1e-2}; "
+RULE = ("six case kinds. csv2d (32%): 0-8 (thorough 0-25) line fractures over a point pool with shared end points, tags, optional domain, tol in {1e-8,1e-4,1e-2}; "
         "coordinate styles: small dyadics, generic doubles (1/3, 1e-17, uniform), UTM-like (5e5, 6.7e6); flavours: plain (distinct points >= 8 tol apart and not np.allclose), "
         "jitter (twins within tol/8: the network's own table merges them), rtol (twins farther than tol but np.allclose with numpy's default rtol), "
         "reader-merge (reader tol larger than the twin distance); written with/without header, read with skip_header 0/1/2, max_num_fracs, tagcols, polyline, domain options. "
@@ -52,7 +52,7 @@ RULE = ("six case kinds. csv2d (33%): 0-8 (thorough 0-25) line fractures over a 
         "csv3d (20%): 0-5 planar convex polygons with 3-8 vertices (generic doubles, vertex cycle in random rotation/orientation, built with sort_points True/False), optional domain, has_domain matching or not. "
         "raw3d (10%): hand-made 3-D csv text with comments, blank lines, missing/short domain line, undecodable cells, coordinate counts not divisible by 3, fewer than 3 points. "
         "txt (15%): 0-5 named arrays of 0-6 values, formats %2.2e (default), %5.3e, %.3f, %g, %.15e, %.16e, %.17e, %.17g; names over letters/digits/_#.-, sometimes a leading #, duplicates, unequal lengths. "
-        "ell3d (6%): hand-made elliptic csv text: 0-3 rows of nine parameters, rows of 8 or 18 numbers, undecodable cells, comments, blank lines, "
+        "ell3d (8%): hand-made elliptic csv text: 0-3 rows of nine parameters, rows of 8 or 18 numbers, undecodable cells, comments, blank lines, "
         "domain line present / missing / short / blank / a comment, degrees on or off. "
         "csv3d cases with a truthful has_domain carry the angle keys of PlaneFracture's sort (computed with the real local_coordinates) so that vertex lists are compared exactly. "
         "non-trivial = a round trip of at least two fractures / two values; distinct = distinct cases")
@@ -488,11 +488,13 @@ def _gen_ell3d(rng, tier):
                rng.uniform(-3, 3), rng.uniform(-3, 3), rng.uniform(-1.5, 1.5), rng.choice([4.0, 5.0, 8.0, 12.0, 7.9, 16.0])]
         cells = [frac(v) for v in row]
         y = rng.random()
-        if y < 0.08:
+        if y < 0.05:
             cells = cells[:-1]
-        elif y < 0.14:
+        elif y < 0.17:
+            cells = rng.choice([cells[:6], cells + cells[:3], cells[:3]])  # 6, 12 or 3 numbers: ValueError
+        elif y < 0.22:
             cells = cells + cells  # 18 numbers: accepted, the first nine are used
-        elif y < 0.19:
+        elif y < 0.27:
             cells[rng.randrange(9)] = None
         lines.append(cells)
     return {"kind": "ell3d", "lines": lines, "has_domain": has_domain, "degrees": rng.random() < 0.4}
@@ -528,7 +530,7 @@ def _gen_txt(rng, tier):
 
 
 def gen_case(rng, tier):
-    k = rng.choices(["csv2d", "raw2d", "csv3d", "raw3d", "txt", "ell3d"], [33, 20, 18, 9, 14, 6])[0]
+    k = rng.choices(["csv2d", "raw2d", "csv3d", "raw3d", "txt", "ell3d"], [32, 19, 18, 9, 14, 8])[0]
     return {"csv2d": _gen_csv2d, "raw2d": _gen_raw2d, "csv3d": _gen_csv3d, "raw3d": _gen_raw3d, "txt": _gen_txt,
             "ell3d": _gen_ell3d}[k](rng, tier)
 
